@@ -50,7 +50,8 @@ def base_kwargs(sampler, tier):
     return kw
 
 
-# (label, constructor kwargs, run kwargs, main?)  - dictionaries under flow_config / training_config are merged
+# (label, constructor kwargs, run kwargs, main?)  - dictionaries under flow_config / training_config are merged.
+# The quick tier runs every entry except the slow non-main ones (plots, process pools).
 STD_OPTIONS = [
     ("flow_proposal_class=augmentedflowproposal", {"flow_proposal_class": "augmentedflowproposal"}, {}, True),
     ("flow_proposal_class=augmentedflowproposal,augment_dims=2,generate_augment=zeros",
@@ -254,6 +255,19 @@ INS_PAIR_AXES = [
 ]
 
 
+def compact(kw):
+    """{'flow_config': {'ftype': 'maf'}, 'x': 1} -> 'flow_config.ftype=maf,x=1' (same style as the single-option labels)"""
+    out = []
+    for k, v in sorted(kw.items()):
+        if isinstance(v, dict) and k in ("flow_config", "training_config"):
+            out += [f"{k}.{kk}={vv}" for kk, vv in sorted(v.items())]
+        elif isinstance(v, dict):
+            out.append(f"{k}=" + "+".join(f"{kk}:{vv}" for kk, vv in sorted(v.items())))
+        else:
+            out.append(f"{k}={v}")
+    return ",".join(out)
+
+
 def merge(base, extra):
     out = json.loads(json.dumps(base))
     for k, v in extra.items():
@@ -282,8 +296,8 @@ def build_jobs(chk):
                                        ("ins", INS_OPTIONS, INS_INVALID, INS_PAIR_AXES)):
         jobs.append(mkjob(f"j{next(n)}", sampler, "<base>", {}, {}, tier, seed0))
         for label, kw, rkw, main in opts:
-            if tier == "quick" and not main:
-                continue
+            if tier == "quick" and not main and ("plot=True" in label or "n_pool" in label):
+                continue                # the slow ones (plots, process pools) are left to the thorough tier
             jobs.append(mkjob(f"j{next(n)}", sampler, label, kw, rkw, tier, seed0))
             if tier == "thorough":
                 jobs.append(mkjob(f"j{next(n)}", sampler, label, kw, rkw, tier, seed0 + 1,
@@ -297,7 +311,7 @@ def build_jobs(chk):
                         if not a or not b:
                             continue        # value `default` of an axis is covered by the singles
                         kw = merge(merge({}, a), b)
-                        label = f"{na}:{json.dumps(a, sort_keys=True)} x {nb}:{json.dumps(b, sort_keys=True)}"
+                        label = f"{compact(a)} x {compact(b)}"
                         jobs.append(mkjob(f"j{next(n)}", sampler, label, kw, {}, tier, seed0 + 2, stream="pair"))
     return jobs
 
@@ -317,32 +331,40 @@ def failure_key(job, r):
     if st == "harness-error":
         return None
     if st in ("timeout", "died", "cap"):
+        it = (r.get("loop_stats") or {}).get("interrupted_traces") or []
+        if st == "cap" and it and all(t["kind"] == "populate" and t["accumulate"] and t["empty_passes"] == 0
+                                      and t["n_proposed"] <= (t["max_samples"] or 0) for t in it):
+            # accumulate_weights: the loop the harness cut is the one C20_populate_accumulate_bounded bounds by
+            # max_samples + drawsize draws (its hypothesis - no pass skipped by `continue` - was observed);
+            # slow, not endless.  Counted in the distribution.
+            return None
         where = (r.get("where") or ["?"])
         last = where[-1] if st == "cap" else (where[0] if where else "?")
         loop = next((w for w in reversed(where) if w.endswith(":populate") or w.endswith(":draw")), last)
-        return (f"C20:no-termination:{loop}",
+        return (f"C20:no-termination:{loop}:{label}",
                 f"{sampler} run with {label}: {st} ({r.get('exc_msg', 'wall-clock cap')}) in {loop}; "
                 f"loop stats {r.get('loop_stats')}")
     if st == "raised":
         msg = r.get("exc_msg", "")
-        stale_ok = job["stream"] == "invalid" and ph in UP_FRONT     # an unknown option rejected up front by the binding itself
-        m = ATTR_RE.search(msg) if r.get("exc_type") == "AttributeError" and not stale_ok else None
-        if m:
+        if ph in UP_FRONT:
+            # rejected before any sampling started (whatever the exception class: the base configuration is
+            # required to complete, so a stale default path cannot hide here)
+            return None
+        m = ATTR_RE.search(msg) if r.get("exc_type") == "AttributeError" else None
+        if m and m.group(1) != "NoneType":
             return (f"C20:attr:{m.group(1)}:{m.group(2)}",
                     f"{sampler} run with {label}: AttributeError {m.group(1)}.{m.group(2)} in phase `{ph}` after "
                     f"{r.get('n_like')} likelihood evaluations")
-        m = KW_RE.search(msg) if r.get("exc_type") == "TypeError" and not stale_ok else None
+        m = KW_RE.search(msg) if r.get("exc_type") == "TypeError" else None
         if m:
             return (f"C20:call:{m.group(1)}:{m.group(2)}",
                     f"{sampler} run with {label}: {m.group(1)}() got unexpected keyword {m.group(2)} in phase `{ph}` "
                     f"after {r.get('n_like')} likelihood evaluations")
-        if ph in UP_FRONT:
-            return None                 # rejected before any sampling started
         if job["stream"] == "invalid":
             return (f"C20:late-rejection:{sampler}:{label}",
                     f"{sampler}: invalid value for {label} is rejected ({r.get('exc_type')}: {msg[:80]}) only in phase "
                     f"`{ph}`, after {r.get('n_like')} likelihood evaluations")
-        return (f"C20:late-failure:{sampler}:{label}:{r.get('exc_type')}",
+        return (f"C20:late-failure:{sampler}:{r.get('exc_type')}@{(r.get('where') or ['?'])[-1]}:{label}",
                 f"{sampler} run with {label} raised {r.get('exc_type')}: {msg[:120]} in phase `{ph}` after "
                 f"{r.get('n_like')} likelihood evaluations (at {(r.get('where') or ['?'])[-1]})")
     if st == "completed":
@@ -811,6 +833,10 @@ def covering_array(chk, static):
             continue
         if st == "raised" and r.get("phase") in UP_FRONT and job["stream"] != "invalid":
             chk.notes.append(f"rejected up front: {job['sampler']} {job['label']}: {r.get('exc_type')}: {r.get('exc_msg', '')[:90]}")
+        if st == "cap" and failure_key(job, r) is None:
+            chk.count("accumulate-run-cut-by-harness-cap(bounded by the max_samples guard)")
+            chk.notes.append(f"cut by the harness cap but bounded by the max_samples guard (theorem C20_populate_accumulate_bounded): "
+                             f"{job['sampler']} {job['label']}: {(r.get('loop_stats') or {}).get('interrupted_traces')}")
         if st == "completed" and (r.get("result") or {}).get("logZ_error") != (r.get("result") or {}).get("logZ_error"):
             chk.count("run-with-NaN-logZ_error")
         if st == "completed" and job["stream"] == "invalid":
@@ -883,7 +909,7 @@ def covering_array(chk, static):
 # =====================================================================================================
 def run(chk):
     chk.rule = ("covering array over the documented options of both samplers on 2-parameter (and, thorough, 3-parameter) "
-                "Gaussian models: the base configuration, every option value on its own (quick: the main ones), "
+                "Gaussian models: the base configuration, every option value on its own, "
                 "all pairs of values over an 11/12-axis subset (thorough), a separate stream of invalid values; "
                 "one bounded child per configuration (wall-clock, proposal-draw, likelihood-evaluation and "
                 "no-progress caps); non-trivial = any configuration other than the base one, distinct by "
